@@ -91,6 +91,8 @@ class Ctx:
     def __init__(self, mode="merge", branch_timeout_ms=3000, max_depth=400):
         self.mode = mode
         self.deadline = None
+        self._points = {}
+        self.eval_first = False  # identical(): evaluate at random points before expanding (see there)
         self.assume_defined = True  # obligations are stated for inputs on which every division is defined
         self.branch_timeout_ms = branch_timeout_ms
         self.max_depth = max_depth
@@ -111,12 +113,17 @@ class Ctx:
         self.dens = []  # denominators the code divided by
         self.rootargs = []  # (arg term, nn flag, degree) of every root taken
         self.rootargs_raw = []  # same with the unsimplified argument (keeps the code's top-level addends)
+        self.atom_lemmas = []
+        self.unit_atoms = {}  # ast id -> var for sign variables s with s*s == 1 (exponents reduce mod 2)
+        self.abs_terms = []  # (If(t >= 0, t, -t), t) for every |t| built on this path
+        self._abs_nn_cache = {}
         self.nonneg_pool = []
         self.solver = z3.Solver()
         self.nfresh_path = 0
         self.log = []
         self.stub_calls = []
         self.grng = None
+        self._evmemo = {}  # (ast id, j) -> (term, value at point j): identical() with eval_first
         self._decided = {}  # ast id -> (condition, polarity): conditions already decided on this path
 
     def fresh(self, base="k"):
@@ -130,6 +137,13 @@ class Ctx:
         v = z3.Real(name)
         self.vars[name] = v
         return v
+
+    def unit_var(self, base="sgn"):
+        """fresh sign variable s in {-1, +1} (fact s*s == 1); products reduce s**2 -> 1 syntactically"""
+        v = self.fresh(base)
+        self.unit_atoms[v.get_id()] = v
+        self.add_fact("def", z3.Or(v == 1, v == -1))
+        return SR(v)
 
     def add_fact(self, group, f):
         self.facts.setdefault(group, []).append(f)
@@ -155,6 +169,19 @@ class Ctx:
         r = str(solver.check(*assumptions))
         self.stats.add(r, time.time() - t0)
         return r
+
+    def free_choice(self, label="choice"):
+        """fork on a fresh, unconstrained boolean (both polarities are feasible by construction: no solver call)"""
+        i = len(self.decisions)
+        if i >= self.max_depth:
+            raise BudgetExceeded(f"depth>{self.max_depth}")
+        if i < len(self.prefix):
+            d = self.prefix[i]
+        else:
+            self.pending.append(self.decisions + [False])
+            d = True
+        self.decisions.append(d)
+        return d
 
     def branch(self, cond):
         """fork on a boolean term; returns the polarity taken on this path"""
@@ -205,19 +232,34 @@ class Ctx:
     def identical(self, a, b, timeout_ms=4000):
         if a.eq(b):
             return True
-        # sound refutation by evaluation at random rational points -- done on the unexpanded difference first
-        # (linear in the DAG size), the sum-of-monomials expansion below is exponential on deep products
-        d0 = a - b
-        refuted, evaluated = self._refute_by_evaluation(d0)
-        if refuted:
-            return False
-        d = z3.simplify(d0, som=True)
+        evaluated = False
+        if self.eval_first:
+            # sound refutation by evaluation at random rational points, done on the unexpanded difference (linear in the
+            # DAG size) before the sum-of-monomials expansion below, which is exponential on deep products.  Opt-in
+            # (Ctx.eval_first): the extra terms shift z3's AST numbering, to which borderline nonlinear queries of
+            # other property modules are sensitive.
+            # values are memoised per term at two fixed pseudo-random points
+            for j in (0, 1):
+                va, vb = self._eval_at(a, j), self._eval_at(b, j)
+                if va is None or vb is None:
+                    break
+                evaluated = True
+                if va != vb:
+                    return False
+        d = z3.simplify(a - b, som=True)
         if z3.is_rational_value(d):
             return _is_zero_value(d)
         if not evaluated:
             refuted, _ = self._refute_by_evaluation(d)
             if refuted:
                 return False
+        from . import ratnorm
+
+        rr = ratnorm.identical_rational(a, b)
+        if rr is not None:
+            # denominators cleared: the numerator of a - b is (not) the zero polynomial
+            self.stats.add("unsat" if rr else "sat", 0.0)
+            return rr
         s = z3.Solver()
         s.set("timeout", timeout_ms)
         s.add(a != b)
@@ -227,13 +269,37 @@ class Ctx:
         self.stats.add(r, time.time() - t0)
         return r == "unsat"
 
+    def _eval_at(self, t, j):
+        """exact value (string of a normalised rational) of term t at the j-th fixed pseudo-random point, or None"""
+        key = (t.get_id(), j)
+        hit = self._evmemo.get(key)
+        if hit is not None and hit[0].eq(t):
+            return hit[1]
+        sub = []
+        for name, v in self.vars.items():
+            pk = (name, j)
+            val = self._points.get(pk)
+            if val is None:
+                r = random.Random(f"{name}/{j}")
+                val = self._points[pk] = rv(Fraction(r.randint(-9, 9) or 1, r.randint(1, 7)))
+            sub.append((v, val))
+        res = None
+        try:
+            val = z3.simplify(z3.substitute(t, *sub)) if sub else z3.simplify(t)
+            if z3.is_rational_value(val):
+                res = val.as_string()
+        except z3.Z3Exception:
+            res = None
+        self._evmemo[key] = (t, res)
+        return res
+
     def _refute_by_evaluation(self, d):
         """(refuted, evaluated): refuted = some random rational point gives d != 0 (so the terms are not identical)"""
         if not self.vars:
             return False, False
         evaluated = False
         for _ in range(2):
-            sub = [(v, rv(Fraction(self._rnd.randint(-9, 9) or 1, self._rnd.randint(1, 7)))) for v in self.vars.values()]
+            sub = [(v, rv(self._rnd.choice((-1, 1))) if v.get_id() in self.unit_atoms else rv(Fraction(self._rnd.randint(-9, 9) or 1, self._rnd.randint(1, 7)))) for v in self.vars.values()]
             try:
                 val = z3.simplify(z3.substitute(d, *sub))
             except z3.Z3Exception:
@@ -252,6 +318,37 @@ class Ctx:
                 return True
         return False
 
+    def resolve_abs(self, term):
+        """rewrite |t| -> t inside `term` for every recorded |t| whose t is polynomial-identical to a term of the
+        non-negative pool (syntactic sums of squares registered by root() or by the harness): sound, value preserving"""
+        if not self.abs_terms or not self.nonneg_pool:
+            return term
+        subs = []
+        pool = self.nonneg_pool
+        for ifterm, inner in self.abs_terms:
+            iid = inner.get_id()
+            ok = self._abs_nn_cache.get(iid)
+            if not ok:
+                start = self._abs_nn_cache.get(("n", iid), 0)
+                for p in pool[start:]:
+                    if self.identical(inner, p):
+                        ok = True
+                        break
+                self._abs_nn_cache[("n", iid)] = len(pool)
+                self._abs_nn_cache[iid] = ok
+            if ok:
+                subs.append((ifterm, inner))
+        if not subs:
+            return term
+        # inner-most first so nested |.| resolve too
+        out = term
+        for _ in range(3):
+            new = z3.substitute(out, *subs)
+            if new.eq(out):
+                break
+            out = new
+        return out
+
     # ---- root atoms
     def root(self, arg, degree=2, nn=False, sos=None):
         self.rootargs_raw.append((arg, bool(nn), degree))
@@ -263,15 +360,26 @@ class Ctx:
                 if r is not None:
                     return SR(rv(r), c=r)
         core, isabs = _strip_abs(arg)
-        if nn:
+        if nn and not any(p.eq(core) for p in self.nonneg_pool):
             self.nonneg_pool.append(core)
         self.rootargs.append((arg, bool(nn or isabs), degree))
         for v, a, dg, c2, abs2 in self.atoms:
             if dg == degree and a.eq(arg):
                 return SR(v, nn=True, sq=(a, dg))
-        for v, a, dg, c2, abs2 in self.atoms:
+        core_r = None
+        for v, a, dg, c2, abs2 in self.atoms if getattr(self, "intern_roots", True) else ():
+            # (harnesses that only need sign reasoning set CTX.intern_roots = False: no interning modulo polynomial identity)
             if dg != degree:
                 continue
+            if self.abs_terms and self.nonneg_pool:
+                if core_r is None:
+                    core_r = _strip_abs(z3.simplify(self.resolve_abs(arg)))
+                c2r, abs2r = _strip_abs(z3.simplify(self.resolve_abs(a)))
+                if self.identical(c2r, core_r[0]):
+                    nn1 = core_r[1] or nn or self.known_nonneg(core_r[0])
+                    nn2 = abs2r or self.known_nonneg(c2r)
+                    if (core_r[1] == abs2r) or (nn1 and nn2):
+                        return SR(v, nn=True, sq=(a, dg))
             if self.identical(c2, core):
                 nn1 = isabs or nn or self.known_nonneg(core)
                 nn2 = abs2 or self.known_nonneg(c2)
@@ -281,26 +389,25 @@ class Ctx:
         self.atoms.append((v, arg, degree, core, isabs))
         self.add_fact("def", v >= 0)
         if sos:
-            # linear-shaped consequences of v = (sum p_i^2)^(1/n): sound for every degree
-            self.add_fact("def", (v == 0) == z3.And([p == 0 for p in sos]))
+            # linear-shaped consequences of v = (sum p_i^2)^(1/n): sound for every degree.  Kept out of the solver's
+            # permanent assertions (they are nonlinear in general) and supplied on demand: refinement level 1.
+            self.atom_lemmas.append((v == 0) == z3.And([p == 0 for p in sos]))
             if degree == 2:
                 for p in sos:
-                    self.add_fact("def", v >= p)
-                    self.add_fact("def", v >= -p)
+                    self.atom_lemmas.append(v >= p)
+                    self.atom_lemmas.append(v >= -p)
         return SR(v, nn=True, sq=(arg, degree))
 
     def atom_defs(self, level=2):
         """definitional facts about root atoms, for lazy refinement.
-        level 1: linear consequences; level 2: v**n == arg (under arg >= 0)."""
-        out = []
-        for v, a, dg, core, isabs in self.atoms:
-            if level >= 2:
+        level 1: consequences for sums of squares (v == 0 <=> parts == 0, v >= |part|); level 2: additionally v**n == arg (under arg >= 0)."""
+        out = list(self.atom_lemmas)
+        if level >= 2:
+            for v, a, dg, core, isabs in self.atoms:
                 p = v
                 for _ in range(dg - 1):
                     p = p * v
                 out.append(z3.Implies(a >= 0, p == a))
-            else:
-                out.append((v == 0) == (a == 0))
         return out
 
 
@@ -659,7 +766,9 @@ class SR:
         if self.c is not None:
             return const(abs(self.c))
         tt = z3.simplify(self.t)
-        return SR(z3.If(tt >= 0, tt, z3.simplify(-tt)), ab=tt)
+        it = z3.If(tt >= 0, tt, z3.simplify(-tt))
+        CTX.abs_terms.append((it, tt))
+        return SR(it, ab=tt)
 
     def conjugate(self):
         return self
@@ -812,8 +921,12 @@ def _pf_mul(a, b, sign):
         else:
             d[f[0]] = [sign * f[1], f[2], f[3], f[4]]
     extra = []
+    units = CTX.unit_atoms if CTX is not None else {}
     for k in list(d):
         e, t, nn, sq = d[k]
+        if units and k in units:
+            e = e % 2
+            d[k][0] = e
         if e == 0:
             del d[k]
             continue
@@ -833,6 +946,10 @@ def _pf_mul(a, b, sign):
         sos = None
         if coef == 1 and len(facs) == 1 and facs[0][1] == 2:
             sos = (facs[0][2],)
+        elif coef > 0 and all(f[1] % 2 == 0 and f[1] > 0 for f in facs):
+            rc = _exact_root(coef, 2)
+            if rc is not None:
+                sos = (_pf_build((rc, tuple((f[0], f[1] // 2, f[2], f[3], f[4]) for f in facs))),)
         if coef == 1 and len(facs) == 1 and facs[0][1] == 1:
             res = SR(facs[0][2], nn=facs[0][3], sq=facs[0][4])
         else:
